@@ -42,7 +42,7 @@ Theorem C08_views_agree : forall (V : Type) c (a : attr V) k i v, Inv a ->
   /\ slice c a (ByPos [k]) = Some [(i, v)]
   /\ (scalar_key_uses_label c = true -> slice c a (ByPos1 k) = Some [(i, v)])
   /\ getitem c a [i] = Some [v]
-  /\ (ts a = false -> filter_with_ids a [i] = Some [(i, v)])
+  /\ filter_with_ids a [i] = Some [(i, v)]
   /\ (forall m, id2index a = Some m -> ids2indices a [i] = Some [k]).
 Proof. intros V. exact (@views_agree V). Qed.
 
@@ -56,11 +56,22 @@ Theorem C08_selection_reads_agree : forall (V : Type) c (a : attr V) l d,
   let t := combine (ids_view a) d in
      slice c a (ByIds l) = select_ids l t
   /\ getitem c a l = option_map vals (select_ids l t)
-  /\ (ts a = false -> filter_with_ids a l = select_ids l t)
+  /\ filter_with_ids a l = select_ids l t
   /\ (forall ks, ids2indices a l = Some ks -> slice c a (ByPos ks) = select_ids l t)
   /\ (forall r, select_ids l t = Some r ->
         ids r = l /\ forall i, In i l -> lookup i r = lookup i t).
 Proof. intros V. exact (@selection_reads_agree V). Qed.
+
+(* collection-level filter (FEMAttributes.filter_with_ids) = member-wise filter by id *)
+Theorem C08_collection_filter_memberwise : forall (V : Type) (ms : list (attr V)) l rs,
+  cfilter ms l = Some rs ->
+  Forall2 (fun a r => filter_with_ids a l = Some r /\ ids r = l /\
+                      forall i, In i l -> lookup i r = lookup i (frame_view a)) ms rs.
+Proof. intros V. exact (@cfilter_memberwise V). Qed.
+
+Theorem C08_collection_filter_defined : forall (V : Type) (ms : list (attr V)) l,
+  (exists rs, cfilter ms l = Some rs) <-> (forall a, In a ms -> forall i, In i l -> In i (ids_view a)).
+Proof. intros V. exact (@cfilter_defined V). Qed.
 
 (* what the row updates write *)
 Theorem C08_slice_write_exact : forall (V : Type) c (a : attr V) l rows a',
